@@ -561,7 +561,11 @@ def main():
         run_readers(tier, funcs, index, enums, res)
         run_wiring(tier, funcs, index, enums, res)
     elif prop == "C12":
+        # c12_glob registers char-list string models globally; they must not leak into the second run, which carries strings as text
+        import models as _models, c16_printf as _preload       # (preload what c12_subject imports, so that its registrations are part of the snapshot)
+        snap = (dict(_models.EXACT), list(_models.PATTERNS))
         run_glob(tier, funcs, index, enums, res)
+        _models.EXACT.clear(); _models.EXACT.update(snap[0]); _models.PATTERNS[:] = snap[1]
         import c12_subject
         r = c12_subject.explore(funcs, index, enums)
         res["functions_executed"].update(r.pop("functions_executed"))
